@@ -2,6 +2,7 @@ package trzsz
 
 import (
 	"bytes"
+	"encoding/json"
 	"fmt"
 	"strings"
 	"time"
@@ -181,11 +182,24 @@ func vScenarioC16(rc *runCtx) {
 	// the two handshake lines are read before anybody knows whether a tmux sits in between: the receive-string
 	// operation is then asked for junk tolerance explicitly, the negotiated flag comes later
 	handshake := !win && tp.Bool("c16.handshake", 250)
+	hsRecord, hsVer, hsProto, hsBuf := false, "", 0, 0
 	for i := 0; i < nlines; i++ {
 		it := item{typ: types[tp.Draw("c16.typ", len(types))], payload: vProtoPayload(tp, 1+tp.Draw("c16.plen", 80))}
 		if handshake && i == 0 {
 			it.typ = []string{"ACT", "CFG"}[tp.Draw("c16.hstyp", 2)]
 			it.payload = vEncode(tp.Bytes("c16.hsraw", 1+tp.Draw("c16.hslen", 120)))
+			if hsRecord = tp.Bool("c16.hsrecord", 600); hsRecord {
+				// a genuine record, read with the operation each end uses for it
+				hsVer, hsProto = fmt.Sprintf("1.1.%d", tp.Draw("c16.hsver", 90)), 1+tp.Draw("c16.hsproto", 4)
+				hsBuf = 1024 * (1 + tp.Draw("c16.hsbuf", 9000))
+				var js []byte
+				if it.typ == "ACT" {
+					js, _ = json.Marshal(map[string]any{"lang": "go", "version": hsVer, "confirm": true, "newline": "\n", "protocol": hsProto, "binary": tp.Bool("c16.hsbin", 500), "support_dir": true})
+				} else {
+					js, _ = json.Marshal(map[string]any{"lang": "go", "bufsize": hsBuf, "timeout": 20, "protocol": hsProto, "quiet": tp.Bool("c16.hsq", 500)})
+				}
+				it.payload = vEncode(js)
+			}
 		}
 		if win {
 			it.noisy, it.kinds = vWinNoise(tp, it.typ, it.payload)
@@ -233,7 +247,21 @@ func vScenarioC16(rc *runCtx) {
 		for i, it := range items {
 			var buf string
 			var err error
-			if handshake && i == 0 {
+			if handshake && i == 0 && hsRecord {
+				buf = it.payload
+				if it.typ == "ACT" {
+					var a *transferAction
+					if a, err = t.recvAction(); err == nil && (a.Version != hsVer || a.Protocol != hsProto || !a.Confirm) {
+						buf = fmt.Sprintf("action read as version %q protocol %d confirm %v", a.Version, a.Protocol, a.Confirm)
+					}
+				} else {
+					var c *transferConfig
+					if c, err = t.recvConfig(); err == nil && (c.MaxBufSize != int64(hsBuf) || c.Protocol != hsProto || c.Timeout != 20) {
+						buf = fmt.Sprintf("config read as bufsize %d protocol %d timeout %d", c.MaxBufSize, c.Protocol, c.Timeout)
+					}
+				}
+				t.transferConfig.TmuxOutputJunk = true
+			} else if handshake && i == 0 {
 				var str string
 				str, err = t.recvString(it.typ, true, nil)
 				if err == nil {
